@@ -184,11 +184,12 @@ def summarise(I, n, it, st):
                     continue
             pending[nm] = new
         # ---- Goertzel second-order recurrence
-        if pending and not is_while:
+        while pending and not is_while:
+            # several independent recurrences may share one loop (both channels of a pair processed in a single pass)
             gz = _goertzel(pending, entry, ivar, count, entry_names)
-            if gz:
-                final.update(gz); summary["goertzel"] = True
-                for k in gz: pending.pop(k, None)
+            if not gz: break
+            final.update(gz); summary["goertzel"] = True
+            for k in gz: pending.pop(k, None)
         for nm in pending:
             final[nm] = Opaque(f"loop-carried {nm} (no idiom)")
         return final
@@ -305,6 +306,9 @@ def _cond_fv(c):
     return _cond_fvs(c)
 
 
+STRICT_RECURRENCES = [False]     # set by the statistics-kernel evaluation: every second-order recurrence there is one channel's own Goertzel filter
+
+
 def _goertzel(pending, entry, ivar, count, entry_names):
     names = list(pending)
     for s1 in names:
@@ -323,7 +327,13 @@ def _goertzel(pending, entry, ivar, count, entry_names):
                 if not lin.eq(n1): continue
             except Unknown:
                 continue
-            if (v.fv() | c.fv() | d.fv()) & entry_names: continue
+            if (v.fv() | c.fv() | d.fv()) & entry_names:
+                foreign = sorted(nm for nm, (en, _) in entry.items() if en in (v.fv() | c.fv() | d.fv()) and nm not in (s1, s2))
+                if STRICT_RECURRENCES[0] and foreign and d.eq(X.const(-1)):
+                    why = (f"the second-order recurrence carried in ({s1}, {s2}) reads the state variable {foreign[0]} of another recurrence: the two channels' "
+                           "Goertzel filters are coupled, so this channel's transform is contaminated by the other channel")
+                    return {s1: Mismatch(why), s2: Mismatch(why)}
+                continue
             out = {}
             if not d.eq(X.const(-1)):
                 why = f"second-order recurrence with s[n-2] coefficient {d!r} instead of -1"
